@@ -8,6 +8,8 @@ Layer kinds:
   cachej jpeg cache over a WMS source with feature info     -> also a tile layer (jpeg tiles)
 Oblique worlds (FRAMES): the same layer trees on a tile grid in a polar stereographic SRS; lattice coordinates are mapped
 to SRS coordinates by an origin and a scale, limited_to geometries are given in EPSG:4326.
+Worlds with an SRS extent (World(ext=...)): the WMS service declares the lattice rectangle `ext` as the extent of the request
+SRS and of its alias code (`services: wms: bbox_srs`): GetMap requests are reduced to / answered blank outside that extent.
 Every upstream paints its whole answer with the colour of its layer; feature info upstreams answer `info:<layer>`.
 Upstream requests are logged (layer, kind).  Caches do not store (disable_storage), so every request that renders a
 layer reaches its upstream.
@@ -90,10 +92,14 @@ class _Resp(io.BytesIO):
 
 
 class World(object):
-    def __init__(self, kinds, group=('b', 'c'), group_this=None, frame=None):
+    def __init__(self, kinds, group=('b', 'c'), group_this=None, frame=None, ext=None):
         """kinds: {'a': 'wmsT', 'b': 'cache', ...} (insertion order = bottom-to-top order of the tree).
-        frame: None (lattice = EPSG:3857 metres) or a key of FRAMES (oblique world)."""
+        frame: None (lattice = EPSG:3857 metres) or a key of FRAMES (oblique world).
+        ext: None or (x0, y0, x1, y1) in lattice units: the WMS service declares this rectangle as the extent of the
+        request SRS and of its alias code (`services: wms: bbox_srs`), see the module docstring."""
         self.frame = frame
+        self.ext = tuple(ext) if ext else None
+        assert not (frame and ext)
         fr = FRAMES[frame] if frame else None
         self.srs = fr['srs'] if fr else SRS
         self.srs_path = fr['srs_path'] if fr else SRS_PATH
@@ -112,8 +118,8 @@ class World(object):
         return [n for n in self.names + (['g'] if self.group_this else []) if self.kinds[n].startswith('cache')]
 
     def key(self):
-        return '%s|%s|%s|%s' % (','.join('%s=%s' % (n, self.kinds[n]) for n in self.names), ','.join(self.group),
-                                self.group_this or '-', self.frame or '-')
+        return '%s|%s|%s|%s|%s' % (','.join('%s=%s' % (n, self.kinds[n]) for n in self.names), ','.join(self.group),
+                                   self.group_this or '-', self.frame or '-', ','.join(map(str, self.ext)) if self.ext else '-')
 
     def sx(self, lx):
         """lattice x -> SRS x"""
@@ -201,6 +207,9 @@ class App(object):
                                                     'featureinfo_formats': [{'mimetype': 'text/plain', 'suffix': 'txt'}]},
                     'wms': {'srs': [SRS, SRS_ALIAS] if not w.frame else [w.srs], 'image_formats': ['image/png', 'image/jpeg'],
                             'featureinfo_types': ['text']}}
+        if w.ext:
+            services['wms']['bbox_srs'] = [{'srs': code, 'bbox': [w.sx(w.ext[0]), w.sy(w.ext[1]), w.sx(w.ext[2]), w.sy(w.ext[3])]}
+                                           for code in (SRS, SRS_ALIAS)]
         return {
             'globals': {'image': {'paletted': False, 'resampling_method': 'nearest'},
                         'cache': {'base_dir': os.path.join(d, 'cache'), 'lock_dir': os.path.join(d, 'locks'),
